@@ -114,8 +114,10 @@ def secgroup_text(kind, a, b, r):
     raise ValueError(kind)
 
 
-def render(layout, struct, r):
-    """-> (text, expected [(trs, block)]) or None when the rendering is not in the documented alphabet."""
+def render(layout, struct, r, blocks=None):
+    """-> (text, expected [(trs, block)]) or None when the rendering is not in the documented alphabet.
+    blocks: block vocabulary to use instead of BLOCKS."""
+    BLOCKS_ = blocks or BLOCKS
     sep = SEP[r.get('sep', 0)]
     conn = CONN[r.get('conn', 0)]
     out, exp = [], []
@@ -152,7 +154,7 @@ def render(layout, struct, r):
                 b = sn.get(b, b) if b is not None else None
                 if kind == 'thru' and not a < b:
                     return None
-            block = BLOCKS[bi % len(BLOCKS)]
+            block = BLOCKS_[bi % len(BLOCKS_)]
             bi += 1
             if (block[0].isdigit() or block[:1] == '.') and layout in ('TR_desc_S', 'desc_STR') and (parts or out):
                 # a block that starts with a number, written directly behind the previous block's section number and a
